@@ -13,7 +13,14 @@ META = {
     "rule": (
         "Hypothesis-generated (source image incl. animated frames, style, method, style args, alpha, "
         "size in cells, terminal size/cell size/identity, start position). The render is executed on the "
-        "vf.vt terminal model at (x0,y0), anchored with CUF(x0) after each newline. Non-trivial = multi-line "
+        "vf.vt terminal model at (x0,y0), anchored with CUF(x0) after each newline, on a screen pre-filled with "
+        "sentinel cells. Judged: exactly the W x H rectangle advertised by rendered_size changed and every cell of it "
+        "is covered (glyph/colour write or graphics placement), nothing outside it changed, no scroll, no autowrap, "
+        "cursor on the last line just past the last column (at the margin when the rectangle reaches it), SGR "
+        "reset, exactly H-1 newlines and no trailing one, parser back in ground state with every control string "
+        "and kitty chunk series complete and every compressed payload inflatable. A 'prior' step renders/measures "
+        "the same image under another terminal configuration first; a boundary family pins kitty payloads to "
+        "exact multiples of the 4096-character chunk size (and one pixel off). Non-trivial = multi-line "
         "render or x0>0 or contact with the right margin/bottom row; distinct by (style, method, identity "
         "class, W, H, right-contact, bottom-contact, alpha kind, entry point)."
     ),
